@@ -50,8 +50,8 @@ def c09():
 
 
 def c05():
-    from harness import intmode
-    return [intmode.GuardRestores()]
+    from harness import intmode, pipeline
+    return [intmode.GuardRestores(), pipeline.OutputIndependent()]
 
 
 def c19():
